@@ -24,7 +24,8 @@ RULE = ('generated object graphs (3-70 objects, thorough up to 400; ints, floats
         'cut, a collection capped, the budget exhausted or the depth limit reached). Distinct = canonical JSON of the case.')
 TRUSTED = ['CPython frame.f_locals / eval / id() semantics; str()/len()/tuple() of built-in types',
            'harness/props/collector_common.py: object builder, raw-fact walker (describe_heap), reference levels']
-ASSUMPTIONS = ['limits are non-negative integers (negative or non-integer limit values are outside the statement)',
+ASSUMPTIONS = ['limits are non-negative integers; negative ints (search stops before the root / text sliced from the end) and '
+               'non-integers (the comparison raises, no snapshot) are outside the statement: labelled stream limits-outside, recorded only',
                'the per-trigger time budget (MAX_TP_PROCESS_TIME) is modelled as one bit per frame (scripted clock)',
                'str() of the whole locals dict (log text of process_variable) is kept affordable: graphs whose repr '
                'expands to more than 20000 nodes are not generated (the agent computes it; exponential in DAG-shaped data)']
@@ -37,7 +38,13 @@ def gen(rng, tier):
         k += 1
         r = rng.random()
         n = rng.choice([120, 250, 400]) if big and rng.random() < 0.1 else None
-        if k % 25 == 0:
+        if k % 97 == 0:
+            # limit values outside the domain (negative ints, text): what the code does is recorded, not judged
+            c = cc.gen_case(rng, nobj=rng.choice([6, 10]), watches=False, stream='limits-outside')
+            key = rng.choice(['MAX_VARIABLES', 'MAX_STRING_LENGTH', 'MAX_COLLECTION_SIZE', 'MAX_VAR_DEPTH'])
+            c['actions'][0]['raw_limits'] = {key: rng.choice([-1, -5, '8', '-1', 2.5])}
+            yield c
+        elif k % 25 == 0:
             # two tracepoints with different limits, the second one runs while the first is in the middle of its collection
             yield cc.gen_race(rng)
         elif r < 0.62:
@@ -94,6 +101,8 @@ def oracle(case, obs):
         raise core.Infra('oracle called without the live objects of its evaluation')
     if case.get('kind') == 'race':
         return cc.judge_race(case, obs, live)
+    if any(a.get('raw_limits') for a in case['actions']):
+        return ['trace_call raised into the host: ' + obs['raised']] if 'raised' in obs else []
     v = []
     if 'raised' in obs:
         v.append('trace_call raised into the host: ' + obs['raised'])
@@ -103,6 +112,8 @@ def oracle(case, obs):
 
 
 def model_request(case, obs):
+    if any(a.get('raw_limits') for a in case.get('actions', [])):
+        return None           # limits outside the domain of the model (Nat)
     if case.get('kind') == 'race':
         return None           # a schedule of two threads: judged by the oracle (each snapshot against its own limits)
     return cc.model_request(case, obs)
@@ -130,6 +141,9 @@ def hit(case, obs):
 def label(case, obs):
     if case.get('kind') == 'race':
         return 'race/' + ('overlap' if obs.get('overlapped') else 'serial')
+    if any(a.get('raw_limits') for a in case['actions']):
+        rl = case['actions'][0]['raw_limits']
+        return 'limits-outside/%s=%r/snap%d' % (list(rl)[0], list(rl.values())[0], len(obs.get('snapshots', [])))
     kind = 'mock/' + case.get('frame_type', '') if case.get('mock') else ('capture' if case.get('capture') else 'frame')
     return kind + '/' + '+'.join(sorted(hit(case, obs)) or ['none'])
 
@@ -137,4 +151,6 @@ def label(case, obs):
 def nontrivial(case, obs):
     if case.get('kind') == 'race':
         return bool(obs.get('overlapped'))
+    if any(a.get('raw_limits') for a in case['actions']):
+        return False
     return bool(hit(case, obs) - {'depth'})
